@@ -487,6 +487,112 @@ def ob_conjugate_shipped(kind):
     return Ob("C14.conjugate.shipped[%s]" % kind, "B", body, clause="exact at the true posterior for the shipped distributions over vague and sharp hyper-parameters (bounded)", funcs=FUNCS)
 
 
+def ob_conjugate_many_terms(naming):
+    """a joint density made of MANY terms (a prior and five blocks of observations) whose objects carry no id, or all the same id: every term
+    is in the joint exactly once, and every objective equals the closed-form log marginal likelihood (gamma-Poisson, q = posterior)"""
+    def body():
+        from torchtree.core.parameter import Parameter
+        from torchtree.distributions.distributions import Distribution
+        from torchtree.distributions.joint_distribution import JointDistributionModel
+        t64 = lambda v: torch.tensor(v, dtype=torch.float64)
+        ident = (lambda k: None) if naming == "anonymous" else (lambda k: "term") if naming == "same_name" else (lambda k: "term%d" % k)
+        a, b = 2.0, 0.5
+        blocks = [[3.0, 5.0], [4.0], [6.0, 2.0, 7.0], [1.0, 9.0], [5.0]]
+        lam = Parameter("lam", t64([4.0]))
+        terms = [Distribution(ident(0), torch.distributions.Gamma, lam, {"concentration": Parameter(None, t64([a])), "rate": Parameter(None, t64([b]))})]
+        for k, blk in enumerate(blocks):
+            terms.append(Distribution(ident(k + 1), torch.distributions.Poisson, Parameter(None, t64(blk)), {"rate": lam}))
+        joint = JointDistributionModel("joint", terms)
+        data = [v for blk in blocks for v in blk]
+        A, B = a + sum(data), b + len(data)
+        q = JointDistributionModel("var", [Distribution("q", torch.distributions.Gamma, lam, {"concentration": Parameter(None, t64([A])), "rate": Parameter(None, t64([B]))})])
+        logz = a * math.log(b) - math.lgamma(a) + math.lgamma(A) - A * math.log(B) - sum(math.lgamma(v + 1) for v in data)
+        lam.tensor = t64([3.3])
+        total = float(sum(float(t().sum()) for t in terms))
+        n = 1
+        if abs(float(joint().sum()) - total) > 1e-10 * abs(total):
+            raise Refuted("joint density of %d %s terms is %r, the sum of its terms is %r" % (len(terms), naming, float(joint().sum()), total),
+                          witness={"naming": naming, "terms": len(terms)}, confirmed=True,
+                          replay={"kind": "custom", "contract": "C14", "func": "replay_conjugate_many_terms", "args": {"naming": naming}})
+        for okind in ("ELBO", "KLpq", "VR0.5", "CUBO"):
+            for samples in ((1,), (4,)):
+                obj = make_objective(okind, q, joint, samples)
+                torch.manual_seed(9)
+                val = float(obj())
+                n += 1
+                if not (val == val) or abs(val - logz) > 1e-8 * abs(logz):
+                    raise Refuted("%s with a joint of %d %s terms, q = posterior, samples %s: returns %r, log marginal likelihood %r" % (okind, len(terms), naming, samples, val, logz),
+                                  witness={"objective": okind, "naming": naming, "value": val, "log_marginal": logz}, confirmed=True,
+                                  replay={"kind": "custom", "contract": "C14", "func": "replay_conjugate_many_terms", "args": {"naming": naming}})
+        return {"backend": "concrete", "cases": n, "statement": "joint of 6 %s terms: equals the sum of its terms; 8 objective evaluations equal log Z" % naming}
+    return Ob("C14.conjugate.many_terms[ids=%s]" % naming, "B", body, clause="exact at the true posterior for a joint of many terms (bounded)", funcs=FUNCS)
+
+
+def replay_conjugate_many_terms(args):
+    try:
+        ob_conjugate_many_terms(args["naming"]).fn()
+    except Refuted as e:
+        return False, e.detail
+    return True, "held"
+
+
+def ob_conjugate_mvn_tril(dim):
+    """the full-covariance Gaussian family as the command line builds it: MultivariateNormal(scale_tril = TransformedParameter(unconstrained,
+    TrilExpDiagonalTransform)); q is SET to the posterior through the transformed parameter (tril.tensor = cholesky(posterior covariance)) for a
+    correlated normal-normal model: the family then IS the posterior and every objective equals the closed-form log marginal likelihood"""
+    def body():
+        from torchtree.core.parameter import Parameter, TransformedParameter
+        from torchtree.distributions.joint_distribution import JointDistributionModel
+        from torchtree.distributions.multivariate_normal import MultivariateNormal
+        from torchtree.distributions.transforms import TrilExpDiagonalTransform
+        t64 = lambda v: torch.tensor(v, dtype=torch.float64)
+        g = torch.Generator().manual_seed(dim)
+        Amat = torch.randn(dim, dim, generator=g, dtype=torch.float64)
+        S0 = Amat @ Amat.T + dim * torch.eye(dim, dtype=torch.float64)
+        m0 = torch.randn(dim, generator=g, dtype=torch.float64)
+        sig2 = torch.rand(dim, generator=g, dtype=torch.float64) + 0.5
+        y = torch.randn(dim, generator=g, dtype=torch.float64)
+        x = Parameter("x", m0.clone())
+        prior = MultivariateNormal("prior", x, Parameter("m0", m0), covariance_matrix=Parameter("S0", S0))
+        from torchtree.distributions.distributions import Distribution
+        like = Distribution("like", torch.distributions.Normal, Parameter("y", y), {"loc": x, "scale": Parameter("noise", sig2.sqrt())})
+        joint = JointDistributionModel("joint", [prior, like])
+        prec = torch.linalg.inv(S0) + torch.diag(1.0 / sig2)
+        post_cov = torch.linalg.inv(prec)
+        post_mean = post_cov @ (torch.linalg.inv(S0) @ m0 + y / sig2)
+        unres = Parameter("unres", torch.zeros(dim * (dim + 1) // 2, dtype=torch.float64))
+        tril = TransformedParameter("tril", unres, TrilExpDiagonalTransform())
+        q = MultivariateNormal("q", x, Parameter("qm", post_mean), scale_tril=tril)
+        L = torch.linalg.cholesky(post_cov)
+        tril.tensor = L
+        back = tril.tensor
+        n = 1
+        if tuple(back.shape) != tuple(L.shape) or not torch.allclose(back, L, rtol=1e-10, atol=1e-12):
+            raise Refuted("dimension %d: after tril.tensor = L the transformed parameter reads back %s, L = %s" % (dim, back.tolist(), L.tolist()), witness={"dim": dim}, confirmed=True,
+                          replay={"kind": "custom", "contract": "C14", "func": "replay_conjugate_mvn_tril", "args": {"dim": dim}})
+        logz = float(torch.distributions.MultivariateNormal(m0, covariance_matrix=S0 + torch.diag(sig2)).log_prob(y))
+        for okind in ("ELBO", "KLpq", "VR0.5", "CUBO"):
+            for samples in ((1,), (5,)):
+                obj = make_objective(okind, q, joint, samples)
+                torch.manual_seed(4)
+                val = float(obj())
+                n += 1
+                if not (val == val) or abs(val - logz) > 1e-8 * max(1.0, abs(logz)):
+                    raise Refuted("%s, correlated normal-normal model of dimension %d, q = MultivariateNormal(scale_tril through TrilExpDiagonalTransform) set to the posterior, samples %s: "
+                                  "returns %r, log marginal likelihood %r" % (okind, dim, samples, val, logz), witness={"objective": okind, "dim": dim, "value": val, "log_marginal": logz},
+                                  confirmed=True, replay={"kind": "custom", "contract": "C14", "func": "replay_conjugate_mvn_tril", "args": {"dim": dim}})
+        return {"backend": "concrete", "cases": n, "statement": "dimension %d: the full-covariance family set to the posterior through its transformed scale_tril gives log Z for 8 objective evaluations" % dim}
+    return Ob("C14.conjugate.mvn_scale_tril[dim=%d]" % dim, "B", body, clause="exact at the true posterior for the full-covariance Gaussian family (bounded)", funcs=FUNCS)
+
+
+def replay_conjugate_mvn_tril(args):
+    try:
+        ob_conjugate_mvn_tril(int(args["dim"])).fn()
+    except Refuted as e:
+        return False, e.detail
+    return True, "held"
+
+
 def replay_conjugate_shipped(args):
     try:
         ob_conjugate_shipped(args["kind"]).fn()
@@ -537,6 +643,10 @@ def obligations(tier, seed):
     obs.append(ob_conjugate_large_data())
     for kind in ("normal.precision", "inverse_gamma"):
         obs.append(ob_conjugate_shipped(kind))
+    for naming in ("anonymous", "same_name", "unique"):
+        obs.append(ob_conjugate_many_terms(naming))
+    for dim in (1, 2, 3, 4):
+        obs.append(ob_conjugate_mvn_tril(dim))
     R = (1, 2, 3) if tier == "quick" else (1, 2, 3, 4, 5)
     kinds = ["ELBO", "KLpq", "VR0", "VR0.5", "CUBO"]
     for kind in kinds:
